@@ -318,3 +318,273 @@ theorem zygosityOf_one (gt : List (Option Int)) (hne : gt ≠ []) :
       exact absurd (hall x hx y hy) hxy
     · exact h
 
+/-! ## heterozygous records -/
+
+theorem isHet_iff (r : VRow) : isHet r = true ↔ germZyg r ≠ 0 ∧ germZyg r ≠ 1 := by
+  simp [isHet]
+
+/-- with zygosities drawn from {0, 0.5, 1}, "heterozygous" is zygosity 0.5 of the germline sample -/
+theorem isHet_iff_half (r : VRow) (hv : germZyg r = 0 ∨ germZyg r = 1/2 ∨ germZyg r = 1) :
+    isHet r = true ↔ germZyg r = 1/2 := by
+  rw [isHet_iff]
+  rcases hv with h | h | h <;> rw [h] <;> norm_num
+
+theorem heterozygous_eq_filter (rows : List VRow) (h : ∃ r ∈ rows, isHet r = true) :
+    heterozygous rows = rows.filter isHet := by
+  have : rows.any isHet = true := List.any_eq_true.mpr h
+  simp [heterozygous, this]
+
+/-- the documented fallback (open finding X): no heterozygous record at all -> every record -/
+theorem heterozygous_fallback (rows : List VRow) (h : ∀ r ∈ rows, isHet r = false) :
+    heterozygous rows = rows := by
+  have : rows.any isHet = false := List.any_eq_false.mpr (fun r hr => by simp [h r hr])
+  simp [heterozygous, this]
+
+theorem keepTN_of_isHet (r : VRow) (h : isHet r = true) : keepTN r = true := by
+  rw [isHet_iff] at h
+  unfold keepTN
+  cases hn : r.n with
+  | none => simp
+  | some g =>
+    have : germZyg r = g.zyg := by simp [germZyg, hn]
+    rw [this] at h
+    simp [h.1]
+
+theorem filter_keepTN_filter_isHet (rows : List VRow) :
+    (rows.filter keepTN).filter isHet = rows.filter isHet := by
+  rw [List.filter_filter]
+  apply List.filter_congr
+  intro r _
+  cases h : isHet r
+  · simp
+  · simp [keepTN_of_isHet r h]
+
+/-- dropping T/N-somatic rows and then taking the heterozygous ones = the germline-heterozygous
+    rows of the table, whenever there is one -/
+theorem hetStage_eq (paired : Bool) (rows : List VRow) (h : ∃ r ∈ rows, isHet r = true) :
+    hetStage paired rows = rows.filter isHet := by
+  unfold hetStage
+  cases paired
+  · simpa using heterozygous_eq_filter rows h
+  · simp only [if_true]
+    obtain ⟨r, hr, hh⟩ := h
+    rw [heterozygous_eq_filter _ ⟨r, List.mem_filter.mpr ⟨hr, keepTN_of_isHet r hh⟩, hh⟩]
+    exact filter_keepTN_filter_isHet rows
+
+/-! ## mirroring -/
+
+theorem absQ_nonneg (q : Rat) : 0 ≤ absQ q := by
+  unfold absQ
+  split <;> linarith
+
+theorem mirrorOne_above (v : Rat) : 1/2 ≤ mirrorOne true v := by
+  have := absQ_nonneg (v - 1/2)
+  simp only [mirrorOne, if_true]
+  linarith
+
+theorem mirrorOne_below (v : Rat) : mirrorOne false v ≤ 1/2 := by
+  have := absQ_nonneg (v - 1/2)
+  simp only [mirrorOne, Bool.false_eq_true, if_false]
+  linarith
+
+/-- mirroring keeps the distance from 0.5 -/
+theorem mirrorOne_dist (b : Bool) (v : Rat) : absQ (mirrorOne b v - 1/2) = absQ (v - 1/2) := by
+  have h := absQ_nonneg (v - 1/2)
+  cases b
+  · simp only [mirrorOne, Bool.false_eq_true, if_false]
+    have e : (1/2 - absQ (v - 1/2) - 1/2 : Rat) = - absQ (v - 1/2) := by ring
+    rw [e]
+    generalize absQ (v - 1/2) = a at h
+    unfold absQ
+    split
+    · ring
+    · have : a = 0 := by linarith
+      rw [this]; ring
+  · simp only [mirrorOne, if_true]
+    have e : (1/2 + absQ (v - 1/2) - 1/2 : Rat) = absQ (v - 1/2) := by ring
+    rw [e]
+    generalize absQ (v - 1/2) = a at h
+    unfold absQ
+    split
+    · linarith
+    · rfl
+
+/-- a value already on the chosen side is left alone -/
+theorem mirrorOne_fixed (v : Rat) : mirrorOne (decide (v > 1/2)) v = v := by
+  unfold mirrorOne absQ
+  by_cases h : v > 1/2
+  · have h2 : ¬ (v - 1/2 < 0) := by linarith
+    simp only [h, decide_true, if_true, h2, if_false]
+    ring
+  · simp only [h, decide_false, Bool.false_eq_true, if_false]
+    by_cases h3 : v - 1/2 < 0
+    · simp only [h3, if_true]; ring
+    · have : v = 1/2 := by linarith
+      simp only [h3, if_false]; rw [this]; ring
+
+theorem mirroredBaf_length (vals : List (Option Rat)) (a : Option Bool) :
+    (mirroredBaf vals a).length = vals.length := by
+  simp [mirroredBaf]
+
+/-- all mirrored values lie on one side of 0.5 -/
+theorem mirroredBaf_one_side (vals : List (Option Rat)) (a : Option Bool) :
+    (∀ q, some q ∈ mirroredBaf vals a → 1/2 ≤ q) ∨ (∀ q, some q ∈ mirroredBaf vals a → q ≤ 1/2) := by
+  unfold mirroredBaf
+  cases h : mirrorAbove vals a
+  · right
+    intro q hq
+    obtain ⟨v, _, hv⟩ := List.mem_map.mp hq
+    cases v with
+    | none => simp at hv
+    | some x =>
+      simp only [Option.map_some, Option.some.injEq] at hv
+      rw [← hv]; exact mirrorOne_below x
+  · left
+    intro q hq
+    obtain ⟨v, _, hv⟩ := List.mem_map.mp hq
+    cases v with
+    | none => simp at hv
+    | some x =>
+      simp only [Option.map_some, Option.some.injEq] at hv
+      rw [← hv]; exact mirrorOne_above x
+
+/-- the side asked for is the side taken -/
+theorem mirroredBaf_side (vals : List (Option Rat)) (b : Bool) (q : Rat)
+    (hq : some q ∈ mirroredBaf vals (some b)) : if b then 1/2 ≤ q else q ≤ 1/2 := by
+  unfold mirroredBaf mirrorAbove at hq
+  obtain ⟨v, _, hv⟩ := List.mem_map.mp hq
+  cases v with
+  | none => simp at hv
+  | some x =>
+    simp only [Option.map_some, Option.some.injEq] at hv
+    rw [← hv]
+    cases b
+    · simpa using mirrorOne_below x
+    · simpa using mirrorOne_above x
+
+theorem median_single (x : Rat) : median [x] = some x := by
+  simp [median, sortQ, insertQ]
+
+/-- one value is its own mirrored median: the single-value shortcut of `into_ranges` agrees with
+    the definition when the side is left to the data -/
+theorem summarize_single (v : Option Rat) : summarize none [v] = v := by
+  cases v with
+  | none => simp [summarize, mirroredBaf, nanmedian, median, sortQ]
+  | some x =>
+    simp only [summarize, mirroredBaf, mirrorAbove, nanmedian, List.filterMap_cons, List.filterMap_nil,
+      id_eq, List.map_cons, List.map_nil, Option.map_some, median_single]
+    rw [mirrorOne_fixed]
+
+theorem series2value_none (vs : List (Option Rat)) : series2value none vs = summarize none vs := by
+  match vs with
+  | [] => simp [series2value, summarize, mirroredBaf, nanmedian, median, sortQ]
+  | [v] => simp [series2value, summarize_single]
+  | _ :: _ :: _ => simp [series2value]
+
+/-! ## TumorBoost and purity -/
+
+theorem tumorBoost_lt (t n : Rat) (h : t < n) (hn : n ≠ 0) :
+    ∃ b, tumorBoost t n = some b ∧ b * (2 * n) = t := by
+  refine ⟨t / (2 * n), by simp [tumorBoost, h, hn], ?_⟩
+  field_simp
+
+theorem tumorBoost_ge (t n : Rat) (h : ¬ t < n) (hn : n ≠ 1) :
+    ∃ b, tumorBoost t n = some b ∧ (1 - b) * (2 * (1 - n)) = 1 - t := by
+  refine ⟨1 - (1 - t) / (2 * (1 - n)), by simp [tumorBoost, h, hn], ?_⟩
+  have : (1 - n) ≠ 0 := by
+    intro e
+    apply hn
+    linarith
+  field_simp
+  ring
+
+/-- a normal at exactly 0.5 leaves the tumour frequency as it is -/
+theorem tumorBoost_half (t : Rat) : tumorBoost t (1/2) = some t := by
+  unfold tumorBoost
+  by_cases h : t < 1/2
+  · simp only [h, if_true]
+    norm_num
+  · simp only [h, if_false]
+    norm_num
+
+/-- the rescaled BAF mixes back to the observed one: t·p + n·(1−p) = obs -/
+theorem rescaleBaf_inverts (p obs n : Rat) (hp : p ≠ 0) :
+    rescaleBaf p obs n * p + n * (1 - p) = obs := by
+  unfold rescaleBaf
+  field_simp
+  ring
+
+theorem rescaleBaf_pure (obs n : Rat) : rescaleBaf 1 obs n = obs := by
+  unfold rescaleBaf
+  norm_num
+
+/-! ## load_het_snps -/
+
+/-- the thresholds stay off when none are asked for and the normal (if any) carries genotypes -/
+theorem effectiveZygFreq_none (o : HetOpts) (tb : VTable) (hz : o.zygFreq = none)
+    (hn : tb.paired = true → ∃ r ∈ tb.rows, ∃ g, r.n = some g ∧ g.zyg ≠ 0) :
+    effectiveZygFreq o tb = none := by
+  unfold effectiveZygFreq
+  rw [hz]
+  cases hp : tb.paired
+  · simp
+  · obtain ⟨r, hr', g, hg, hg0⟩ := hn hp
+    have : normalUntyped tb.rows = false := by
+      unfold normalUntyped
+      have : tb.rows.any (fun r => (r.n.map (fun g => g.zyg != 0)).getD false) = true :=
+        List.any_eq_true.mpr ⟨r, hr', by simp [hg, hg0]⟩
+      simp [this]
+    simp [this]
+
+/-- `load_het_snps` on a file whose chosen germline sample has a heterozygous record: exactly the
+    germline-heterozygous rows of the table read with the depth filter and without SOMATIC records -/
+theorem loadHetSnps_rows (samples : List String) (tags : List PedTag) (recs : List Rec)
+    (o : HetOpts) (tb : VTable)
+    (hr : readVcf samples tags recs
+            { sid := o.sid, nid := o.nid, minDepth := o.minDepth,
+              skipReject := false, skipSomatic := true } = .ok tb)
+    (hz : o.zygFreq = none) (hb : o.tumorBoost = false)
+    (hn : tb.paired = true → ∃ r ∈ tb.rows, ∃ g, r.n = some g ∧ g.zyg ≠ 0)
+    (hh : ∃ r ∈ tb.rows, isHet r = true) :
+    loadHetSnps samples tags recs o = .ok { paired := tb.paired, rows := tb.rows.filter isHet } := by
+  unfold loadHetSnps
+  rw [hr]
+  simp only [bind, Except.bind, effectiveZygFreq_none o tb hz hn, retype, hb, boostStage,
+    hetStage_eq tb.paired tb.rows hh, pure, Except.pure]
+  rfl
+
+/-- the same with genotypes re-derived from the frequencies (`zygosity_freq` given) -/
+theorem loadHetSnps_rows_freq (samples : List String) (tags : List PedTag) (recs : List Rec)
+    (o : HetOpts) (tb : VTable) (het hom : Rat)
+    (hr : readVcf samples tags recs
+            { sid := o.sid, nid := o.nid, minDepth := o.minDepth,
+              skipReject := false, skipSomatic := true } = .ok tb)
+    (hz : o.zygFreq = some (het, hom)) (hv : 0 ≤ het ∧ het ≤ hom ∧ hom ≤ 1) (hb : o.tumorBoost = false)
+    (hh : ∃ r ∈ zygosityFromFreq het hom tb.rows, isHet r = true) :
+    loadHetSnps samples tags recs o =
+      .ok { paired := tb.paired, rows := (zygosityFromFreq het hom tb.rows).filter isHet } := by
+  unfold loadHetSnps
+  rw [hr]
+  simp only [bind, Except.bind, effectiveZygFreq, hz, retype, hv, and_self, if_true, hb, boostStage,
+    hetStage_eq tb.paired _ hh, pure, Except.pure]
+  rfl
+
+/-- TumorBoost inside `load_het_snps`: every row keeps its coordinates and genotypes and gets the
+    value computed from its own tumour and normal frequencies -/
+theorem boostStage_attached (rows out : List VRow) (h : boostStage true true rows = .ok out) :
+    out.length = rows.length ∧
+    ∀ i (hi : i < rows.length) (ho : i < out.length),
+      out[i].chrom = rows[i].chrom ∧ out[i].s = rows[i].s ∧ out[i].e = rows[i].e ∧
+      out[i].n = rows[i].n ∧ out[i].t.zyg = rows[i].t.zyg ∧ out[i].t.altFreq = boostRow rows[i] := by
+  simp only [boostStage, if_true, Except.ok.injEq] at h
+  subst h
+  refine ⟨by simp, ?_⟩
+  intro i hi ho
+  simp
+
+/-- `boostRow` of a paired row with finite frequencies is the TumorBoost formula on that row -/
+theorem boostRow_formula (r : VRow) (g : Geno) (t n : Rat) (hn : r.n = some g)
+    (ht : r.t.altFreq = .fin t) (hg : g.altFreq = .fin n) :
+    boostRow r = ofOpt (tumorBoost t n) := by
+  simp [boostRow, hn, ht, hg, Freq.toOpt]
+
